@@ -18,6 +18,8 @@ import (
 	"strings"
 )
 
+var rePredStub = regexp.MustCompile(`__pred[0-9a-z_]*`)
+
 func parserParse(fset *token.FileSet, name, src string) (*ast.File, error) {
 	return parser.ParseFile(fset, name, src, parser.ParseComments|parser.SkipObjectResolution)
 }
@@ -337,7 +339,11 @@ func (e *specEval) eval(n *Obj, st sstate) []sres {
 		}
 		return out
 	case "TypePredicate":
+		// the event is named by the stub the text calls, whatever layout and comments surround it
 		name := strings.TrimSuffix(m.strOf(n), "()")
+		if id := rePredStub.FindString(name); id != "" {
+			name = id
+		}
 		y, no := st.clone(), st.clone()
 		y.hist = append(y.hist, fmt.Sprintf("%s@%s:true", name, st.pos))
 		no.hist = append(no.hist, fmt.Sprintf("%s@%s:false", name, st.pos))
